@@ -728,6 +728,21 @@ def _merge(ctx, prog):
                f"merge: constructor argument {pname} is {why} — every pose "
                f"must keep its own {attr}",
                key=f"C11.5:role:{pname}", value=fmt(v))
+    # nothing may thin out / re-select the merged trajectory in the
+    # documented call form (options added later are at their defaults)
+    later = [e for e in r.of_kind("call")
+             if e.data.get("recv") is ret and
+             not tm.is_const(e.live, False) and
+             any(k in (e.data.get("name") or "") for k in
+                 ("reduce_to_ids", "downsample", "motion_filter",
+                  "reduce_to_time_range"))]
+    ctx.ob("C11.5", later[0] if later else f, not later,
+           "merge: the merged trajectory is returned as constructed (the "
+           "full time-sorted union)" if not later else
+           f"merge: with default options the merged trajectory is reduced "
+           f"again by {later[0].data.get('name')} at {later[0].where} — "
+           f"poses of the union (e.g. poses with equal timestamps) are "
+           f"dropped", key="C11.5:union-complete")
     ok = len(orders) == 1
     o = list(orders)[0] if ok else None
     if ok:
